@@ -8,7 +8,7 @@ import runmon
 
 def run(chk):
     runmon.monitor_run(chk, chk.tier)
-    keep = ('timers-follow-policy',)
+    keep = ('timers-follow-policy', 'run-explored')
     chk.obligations = [o for o in chk.obligations if o.name in keep]
     chk.bounds.update({'run loop iterations': 2, 'pending polls per timer': 1, 'timer firing orders': 'all subsets/orders of the two timers within the poll bound'})
     chk.assumptions += [
